@@ -57,6 +57,10 @@ namespace c12
 
 inline void std::default_delete< c12::tnode >::operator()( c12::tnode* p ) const
 {
+#ifdef C12_LEAK
+   (void)p;
+   return;
+#endif
    c12::tnode* work[ C12_MAXNODES + 2 ];
    unsigned n = 0;
    work[ n++ ] = p;
@@ -82,7 +86,15 @@ inline void std::default_delete< c12::tnode >::operator()( c12::tnode* p ) const
 
 namespace c12
 {
-   // is_type<>() against the list of selected rules: index of the first rule type the node claims to be (or -1)
+   // the node's `type` member against the list of selected rules: id of the first rule whose demangled name it IS (same
+   // characters at the same address, the first disjunct of basic_node::is_type<>(); the memcmp fallback is not exercised) or -1
+   template< typename Rule >
+   inline bool same_name( const std::string_view t )
+   {
+      const auto u = demangle< Rule >();
+      return ( t.data() == u.data() ) && ( t.size() == u.size() );
+   }
+
    template< typename... Rules >
    struct typelist
    {
@@ -90,7 +102,7 @@ namespace c12
       static int id_of( const Node& n )
       {
          int r = -1;
-         (void)( ( n.template is_type< Rules >() ? ( r = vf::rid< Rules >::value, true ) : false ) || ... );
+         (void)( ( same_name< Rules >( n.type ) ? ( r = vf::rid< Rules >::value, true ) : false ) || ... );
          return r;
       }
    };
@@ -158,7 +170,11 @@ namespace c12
          if( r ) {
             out[ 0 ] = 1;
             out[ 4 ] = ( r->is_root() ? 1UL : 0UL ) | ( r->has_content() ? 2UL : 0UL );
+#ifdef C12_NOFLATTEN
+            out[ 3 ] = r->children.size();
+#else
             flatten< Types >( *r, b, out );
+#endif
          }
          else {
             out[ 0 ] = 0;
